@@ -6,7 +6,7 @@
    lock-set (Eraser-style) race condition of Model/Races.v: same cell, conflicting modes, the two goroutine
    kinds can touch the same instance, no common mutex, not ordered by goroutine start. *)
 From Coq Require Import ZArith List String.
-From F2G Require Import Model.Races Model.RaceFindings gen.Accesses Proofs.Races.
+From F2G Require Import Model.Races Model.RaceFindings gen.Accesses Proofs.Races Proofs.RacesTable.
 Import ListNotations.
 
 (* the executable classifier finds exactly the racing pairs of any table *)
